@@ -199,6 +199,26 @@ def tree_session(run, rng, k, quick):
                 S.request(req, 'sel', subsel, label='no-index-cols+subsamples')
             if run.too_many():
                 return
+        # the same request *object* reused across successive loads (state must not travel in the caller's list)
+        for req0, seq in ((['N', 'x_com', 'id', 'r50_com'], (True, False, True)), (['x_com', 'N_merge', 'is_merged_to'], (True, True)), (('v_com', 'N'), (True, False))):
+            req = list(req0) if isinstance(req0, list) else req0
+            for j, cleaned in enumerate(seq):
+                desc = dict(tree=k, request=list(req0), cleaned=cleaned, kind=f'reused-request-object load #{j + 1}')
+                run.progress(desc)
+                run.ev()
+                run.count('loads')
+                cat, err = catoracle.load(truth['path'], cleaned=cleaned, fields=req)
+                if err is not None:
+                    run.violation('reused-request-load-fails-' + type(err).__name__, dict(error=str(err)[:200], **desc))
+                    break
+                if list(req) != list(req0):
+                    run.violation('caller-request-list-mutated', dict(now=list(req), **desc))
+                    break
+                missing = [c for c in req0 if result_name(c, cleaned) not in cat.halos.colnames and not (cleaned and c == 'N')]
+                if missing or (cleaned and 'N' in req0 and 'N' not in cat.halos.colnames):
+                    run.violation('requested-column-missing', dict(missing=missing, got=cat.halos.colnames, **desc))
+                    break
+                run.nt((k, 'reused', tuple(req0), j))
         # passthrough class (raw names)
         passthrough_class(run, rng, truth, k)
     finally:
